@@ -27,6 +27,10 @@ type Obligation struct {
 	// ModelTerms are symbolic inputs whose values make a counterexample replayable.
 	ModelTerms []NamedTerm
 	Unit       string
+	// PreCover: for a cover obligation placed after a contract application, the path condition
+	// before the call. If that is unsatisfiable too the call sits on a dead path and the guard
+	// does not apply.
+	PreCover *Term
 }
 
 type NamedTerm struct {
@@ -71,6 +75,7 @@ type Exec struct {
 	depth     int
 	stack     []*ssa.Function
 	ghost     map[string]Value // ghost bindings for contract application
+	ifaceMethod *types.Func    // method being called through an interface-level contract (binds self and parameter names)
 	specs     map[*ssa.Function]*specDef
 	specMode  int
 	defining  []*ssa.Function
@@ -81,6 +86,7 @@ type Exec struct {
 	ghostKeys  map[string]*ssa.Parameter // ghost variables live in State.Env under synthetic keys (merged like any value)
 	pathInline bool
 	pathSteps  int
+	specWF     []*Term // well-formedness facts of values loaded inside spec functions (see wfLoaded)
 	deadline   time.Time
 }
 
@@ -155,6 +161,16 @@ func (x *Exec) addCover(st *State, sub string, pos token.Pos, text string) {
 		return
 	}
 	o := &Obligation{Name: x.oblName("cover." + sub), Kind: "cover", Func: x.unitFunc, Pos: x.Prog.Pos(pos), Assume: st.PC, Goal: x.C.True(), Cover: true, Text: text, Unit: x.unit}
+	x.Obls = append(x.Obls, o)
+}
+
+// addCallCover guards against contradictory callee contracts: the state after applying the
+// contract must be satisfiable whenever the state before the call was.
+func (x *Exec) addCallCover(st *State, before *Term, callee string, pos token.Pos) {
+	if x.specMode > 0 || st.PC == nil || st.PC == before {
+		return
+	}
+	o := &Obligation{Name: x.oblName("cover.call." + callee), Kind: "cover", Func: x.unitFunc, Pos: x.Prog.Pos(pos), Assume: st.PC, Goal: x.C.True(), Cover: true, Text: "the assumed contract of " + callee + " is consistent with the state at this call", Unit: x.unit, PreCover: before}
 	x.Obls = append(x.Obls, o)
 }
 
@@ -1314,7 +1330,8 @@ func (x *Exec) strLess(a, b *Term) *Term {
 		p, q, r := c.Var("p", StrSort), c.Var("q", StrSort), c.Var("r", StrSort)
 		c.Axioms["gostr.less"] = []*Term{
 			c.Forall([]*Term{p}, c.Not(c.App(f, p, p)), c.App(f, p, p)),
-			c.Forall([]*Term{p, q, r}, c.Implies(c.And(c.App(f, p, q), c.App(f, q, r)), c.App(f, p, r)), c.App(f, p, q), c.App(f, q, r)),
+			// transitivity with one multi-pattern (each single pattern would miss a variable)
+			c.intern(&Term{Op: "forall", Args: []*Term{c.Implies(c.And(c.App(f, p, q), c.App(f, q, r)), c.App(f, p, r))}, Vars: []*Term{p, q, r}, Pats: []*Term{c.App(f, p, q), c.App(f, q, r)}, Sort: BoolSort, Name: "multi"}),
 			c.Forall([]*Term{p, q}, c.Or(c.App(f, p, q), c.App(f, q, p), c.Eq(p, q)), c.App(f, p, q)),
 		}
 	}
